@@ -19,7 +19,9 @@ RULE = ("A real Zeroconf registers a service (v4/v6/dual/multi-address, custom T
         "(QU PTR question for the type, proposed PTR in the authority section, nothing else), no record of the service multicast "
         "before the last probe, three complete announcements 225 ms apart (PTR, SRV, TXT, all A/AAAA, NSEC when a family is "
         "missing; flush bit exactly on non-PTR records); conflict before the last probe check => NonUniqueNameException or first "
-        "free '-N' name, re-probed, conflicting name never announced/answered; registry holds each name once. Distinct = "
+        "free '-N' name, re-probed, conflicting name never announced/answered (NonUniqueNameException when no '-N' name fits a "
+        "label: instance labels of 61..63 bytes are generated); an expired-but-unpurged cached copy of the conflicting pointer is "
+        "one of the start states; registry holds each name once. Distinct = "
         "(variant, conflict window, rename, chain length, address family, layout) classes.")
 ASSUMPTIONS = ["conflict arriving within 1 ms of the last probe instant may be either detected or missed (same-instant ordering)"]
 
